@@ -5,6 +5,6 @@ import "time"
 func init() {
 	registry = append(registry, property{id: "C12", parts: []part{
 		{name: "histories", pkg: "./c12", run: "^TestHistories$",
-			shards: [2]int{8, 16}, checks: [2]int{1500, 60000}, timeout: [2]time.Duration{9 * min, 25 * min}},
+			shards: [2]int{8, 16}, checks: [2]int{1500, 35000}, timeout: [2]time.Duration{9 * min, 50 * min}},
 	}})
 }
